@@ -97,7 +97,7 @@ theorem numberRow_spec (start : Nat) (row : List Nat) (tbl : List (Nat × Nat)) 
           simp only [List.map_append, List.mem_append]; left; exact this
         · exact e4 x hx
       · intro k hk; simp only [List.mem_cons]; right; exact e5 k hk
-    · simp only [ha, if_false]
+    · simp only [ha]
       have hnk : a ∉ tbl.map (·.1) := fun hm => ha ((lookup_isSome_iff_mem_keys tbl a).mpr hm)
       have h1 : TblInv start (tbl ++ [(a, start + tbl.length)]) := by
         constructor
